@@ -69,12 +69,12 @@ PROPS["C09"] = {
 
 PROPS["C10"] = {
     "kani": "c10",
+    "mir": "c10",
     "level": "model_checking",
     "explanation": "Bounded model checking (Kani/CBMC) of the comparison every sorter and k-way merger delegates to (ScalarValue::compare) on each numeric / time / bool sort-key type: equals the typed order, antisymmetric and transitive over three arbitrary values; plus the heap ordering (asc / desc, shard tie-break) of the ordered merger through a cfg(kani) hook.",
     "outside": [
-        "the slice m..m+n itself: offset / limit are applied in an async writer whose state includes a HashSet; ordered mergers run over channels; top-k zone pre-selection (RLTE) is I/O",
+        "the ordered mergers themselves (async, over channels) and top-k zone pre-selection (RLTE, I/O); the window kernel try_accept_row and the OFFSET-without-LIMIT gate are decided by Engine B",
         "string sort keys in general (str::parse of symbolic text does not finish); only the concrete witness of F-C10-a",
-        "OFFSET without LIMIT rejection (handler)",
         "Int64 vs Float64 keys beyond 2^53 (as_f64 rounding)",
     ],
 }
@@ -201,6 +201,7 @@ PROPS["C06"] = {
 }
 
 PROPS["C08"]["trusted_base"] = MIR_TRUSTED
+PROPS["C10"]["trusted_base"] = MIR_TRUSTED
 PROPS["C18"]["trusted_base"] = PROPS["C18"]["trusted_base"] + MIR_TRUSTED
 PROPS["C09"]["trusted_base"] = MIR_TRUSTED
 PROPS["C16"]["trusted_base"] = MIR_TRUSTED
